@@ -237,18 +237,164 @@ def check_program(p, st):
                     st.add('outcomes', ('p', min(i, 3), v >= (1 << wd), v < 0, ones))
 
 
+SEPS = {
+    # separator between two runs: (declaration, its bytes, how its value reads)
+    'int': ('Int(1)', b'\x7e', 0x7e),
+    'data': ("Data(until_marker=b'\\x00')", b'Q\x00', b'Q'),
+    'seq': ('Int(1).repeated(1)', b'\x7e', [0x7e]),
+    'em': ('Em()', b'', None),
+}
+
+
+def multi_programs(tier):
+    """SEVERAL runs in one class, separated by a field that is not a bit field: each run is its own shared integer"""
+    progs = []
+    c8 = compositions(8, 2)
+    for a in c8:
+        for b in c8:
+            for sep in ('int', 'data', 'seq'):
+                progs.append({'multi': [a, b], 'sep': sep})
+    two = compositions(16, 2)
+    for a in compositions(8, 3):
+        for b in (two if tier == 'thorough' else two[::2]):
+            progs.append({'multi': [a, b], 'sep': 'int'})
+            progs.append({'multi': [b, a], 'sep': 'int'})
+    for t in ([(4, 4), (3, 5), (1, 7)], [(3, 13), (8,), (6, 2)], [(1, 1, 6), (12, 12), (5, 3)], [(8,), (8,), (8,)], [(2, 6), (7, 1), (4, 4), (3, 13)]):
+        for sep in ('int', 'data'):
+            progs.append({'multi': t, 'sep': sep})
+            progs.append({'multi': t, 'sep': sep, 'gen': False})
+    # runs that are each NOT a multiple of 8 although the widths of the whole class add up to one: rejected at class definition
+    for a, b in (((4,), (4,)), ((3,), (5,)), ((1, 2), (5,)), ((4, 8), (4,)), ((7,), (9,)), ((4,), (12,)), ((2,), (3, 3))):
+        for sep in ('int', 'data', 'seq', 'em'):
+            progs.append({'multi': [a, b], 'sep': sep, 'bad': True})
+    # ... and a good run next to a bad one
+    for a, b in (((4, 4), (3,)), ((3,), (4, 4)), ((8,), (4, 5))):
+        progs.append({'multi': [a, b], 'sep': 'int', 'bad': True})
+    return progs
+
+
+def multi_source(p):
+    opts = dict(mk.GEN_ALL_OFF) if p.get('gen') is False else None
+    lines = []
+    for r, widths in enumerate(p['multi']):
+        if r:
+            lines.append('s%d = %s' % (r, SEPS[p['sep']][0]))
+        lines.extend('r%db%d = Bits(%d)' % (r, i, w) for i, w in enumerate(widths))
+    return mk.class_src('K', lines, opts)
+
+
+def check_multi(p, st):
+    src = multi_source(p)
+    runs = [tuple(w) for w in p['multi']]
+    decl, sepraw, sepval = SEPS[p['sep']]
+
+    def viol(clause, what, extra):
+        case = {'prog': p}
+        case.update(extra)
+        st.violate('%s (several runs)' % clause, '%s | %s' % (what, src.replace('\n', '; ')), case, mk.HEADER + src)
+
+    with mk.World() as w:
+        st.inc('programs')
+        try:
+            K = w.module(src).K
+        except Exception as e:
+            if p.get('bad'):
+                st.inc('rejected_at_definition')
+                st.add('outcomes', ('defn-rejected-multi', p['sep']))
+                return
+            viol('definition-fails', 'class definition raised %r' % (e,), {})
+            return
+        if p.get('bad'):
+            viol('definition-accepts', 'runs of Bits of total widths %r (none a multiple of 8... or one of them not) were accepted at class definition' % ([sum(r) for r in runs],), {})
+            return
+        names = [['r%db%d' % (r, i) for i in range(len(ws))] for r, ws in enumerate(runs)]
+
+        def wire(pats):
+            return sepraw.join(pats)
+
+        def expect_fields(pats):
+            out = {}
+            for r, ws in enumerate(runs):
+                out.update(zip(names[r], ref_slices(pats[r], ws)))
+                if r and sepval is not None:
+                    out['s%d' % r] = sepval
+            return out
+
+        def read(pk):
+            out = {}
+            for r in range(len(runs)):
+                for n in names[r]:
+                    out[n] = getattr(pk, n)
+                if r and sepval is not None:
+                    out['s%d' % r] = getattr(pk, 's%d' % r)
+            return out
+        # ---- unpack: one run walks through its patterns, the others hold 00.. / ff.. / a5..
+        for r, ws in enumerate(runs):
+            nb = sum(ws) // 8
+            for fill in (0x00, 0xff, 0xa5):
+                for pat in lane_patterns(nb):
+                    pats = [bytes([fill]) * (sum(x) // 8) for x in runs]
+                    pats[r] = pat
+                    raw = wire(pats)
+                    exp = expect_fields(pats)
+                    st.inc('evaluations')
+                    try:
+                        pk = K.unpack(raw)
+                        got = read(pk)
+                    except Exception as e:
+                        viol('unpack-raises', 'unpack(%r) raised %r' % (raw, e), {'op': 'unpack', 'raw': raw})
+                        break
+                    if got != exp:
+                        viol('unpack-slices', 'unpack(%r) -> %r, expected %r' % (raw, got, exp), {'op': 'unpack', 'raw': raw})
+                        break
+                    try:
+                        out = pk.pack()
+                    except Exception as e:
+                        out = e
+                    if out != raw:
+                        viol('unpack-pack', 'unpack(%r).pack() = %r' % (raw, out), {'op': 'unpack', 'raw': raw})
+                        break
+                    st.add('outcomes', ('um', len(runs), r, fill, min(int.from_bytes(pat, 'big'), 1)))
+        # ---- pack: one field takes its value set, every other bit field all-zeros / all-ones
+        for r, ws in enumerate(runs):
+            for i, wd in enumerate(ws):
+                for v in (0, 1, (1 << wd) - 1, 1 << wd, -1, 3 << wd):
+                    for ones in (False, True):
+                        vals = [[((1 << x) - 1) if ones else 0 for x in run] for run in runs]
+                        vals[r][i] = v
+                        expraw = wire([ref_pack(vals[k], runs[k]) for k in range(len(runs))])
+                        kw = {}
+                        for k in range(len(runs)):
+                            kw.update(zip(names[k], vals[k]))
+                            if k and sepval is not None:
+                                kw['s%d' % k] = sepval
+                        st.inc('evaluations')
+                        try:
+                            out = K(**kw).pack()
+                        except Exception as e:
+                            viol('pack-raises', 'K(%r).pack() raised %r' % (kw, e), {'op': 'pack', 'values': vals})
+                            continue
+                        if out != expraw:
+                            viol('pack-bits', 'K(%r).pack() = %r, expected %r (each run its own integer, each value mod 2^width in its own slice)' % (kw, out, expraw),
+                                 {'op': 'pack', 'values': vals})
+                        st.add('outcomes', ('pm', r, min(i, 3), v >= (1 << wd), v < 0, ones))
+
+
 def _shard(shard, nshards, payload):
     st = Stats()
-    progs = programs(payload['tier'])
+    progs = programs(payload['tier']) + multi_programs(payload['tier'])
     if payload.get('o'):
         # under python -O: the definitions that must be rejected, and the one-byte compositions
-        progs = [p for p in progs if p.get('bad') or (sum(p['widths']) == 8 and not p.get('lent') and p.get('gen') is not False)]
+        progs = [p for p in progs if p.get('bad') or ('widths' in p and sum(p['widths']) == 8 and not p.get('lent') and p.get('gen') is not False)]
     for i, p in enumerate(progs):
         if i % nshards != shard:
             continue
-        check_program(p, st)
+        if 'multi' in p:
+            check_multi(p, st)
+        else:
+            check_program(p, st)
         if i % 1009 == common.SEED % 1009:
-            st.sample({'class': source(p)})
+            st.sample({'class': multi_source(p) if 'multi' in p else source(p)})
     return st
 
 
@@ -270,6 +416,8 @@ def run(tier):
                 '(<=2 parts, a 1-bit field at every position, a field straddling every byte boundary); unpack: all 256 patterns (1 byte) / '
                 'walking-one, walking-zero, alternating and byte-lane patterns; pack: per field {0,1,2^w-1,2^w,2^w+1,-1,-2^(w-1),3*2^w} with '
                 'neighbours all-zeros and all-ones; histories on one packet (unpack, set a field, pack; raise it, pack, lower it, pack); '
+                'several runs in one class separated by an integer / a delimited string / a list (pairs of <=2-part compositions of 8 bits x 3 separators, 8-bit x 16-bit pairs, '
+                'three to four runs; every run walks its patterns while the others hold 00/ff/a5; runs that are not multiples of 8 although the class total is must fail); '
                 'all runs of total 1..17 bits not a multiple of 8 must fail at class definition; those and the one-byte compositions once more in child interpreters started with -O' %
                 ('all 32768' if tier == 'thorough' else 'all 576 <=4-part'),
         'exhaustive': True,
@@ -283,6 +431,9 @@ def run(tier):
 def replay(case):
     st = Stats()
     p = case['prog']
+    if 'multi' in p:
+        check_multi(p, st)
+        return st.violations
     p['widths'] = tuple(p['widths'])
     check_program(p, st)
     return st.violations
